@@ -220,7 +220,7 @@ class PartialModel:
         path = path or []
         # None -> missing value -> just use new value (shortcut)
         if v_old is None or v_new is None:
-            return v_new or v_old
+            return v_new if v_new is not None else v_old
 
         # list -> new one must also be a list -> concatenate
         if isinstance(v_old, list):
